@@ -220,11 +220,27 @@ def sameExtcoms : List ExtCom → List ExtCom → Bool
 def sameListed : ApiAttr → ApiAttr → Bool
   | .unknown f t v, .unknown f' t' v' => t = t' && v = v' && (f = f' || f = 0)
   | .extCommunities l, .extCommunities l' => sameExtcoms l l'
+  -- a typed MP_REACH message is shown as the raw carrier: family, length of the next hop, the next hop, a
+  -- reserved 0.  It holds ONE next hop: a message with more of them is not listed as sent.
+  | .mpReach (some (afi, safi)) nhs, .unknown f 14 v =>
+      f = 0x80 &&
+      (match nhs with
+       | [] => v = beN 2 afi ++ [safi, 0, 0]
+       | [s] =>
+           (match s.parse4, s.parse6 with
+            | some a, _ => v = beN 2 afi ++ [safi, 4] ++ beN 4 a ++ [0]
+            | none, some a => v = beN 2 afi ++ [safi, 16] ++ beN 16 a ++ [0]
+            | none, none => false)
+       | _ => false)
   | a, b => a = b
 
 def checkListed (x : ApiAttr) (o : AttrObs) : Verdict :=
   match o.api with
-  | .ok y => if sameListed x y then .ok else .fail "listed-differs-from-added"
+  | .ok y =>
+      if sameListed x y then .ok
+      else match x with
+        | .mpReach _ (_ :: _ :: _) => .fail "listed-lacks-further-next-hops"
+        | _ => .fail "listed-differs-from-added"
   | _ => .ok      -- a panic / failure of `attr_to_api` is reported by `roundTrip`
 
 def checkNlri (stream : String) (o : NlriObs) : Verdict :=
@@ -253,6 +269,7 @@ def checkAll (stream : String) : List NlriObs → Verdict
 def kindOf : ApiAttr → String
   | .nextHop _ => "next-hop"
   | .unknown _ 14 _ => "next-hop"          -- a raw MP_REACH_NLRI is a next-hop carrier
+  | .mpReach .. => "next-hop"
   | .originatorId _ => "originator-id"
   | .clusterList _ => "cluster-list"
   | .extCommunities _ => "extended-communities"
